@@ -137,6 +137,23 @@ U("parse_step_args", entry="h_parse_step", cbmc=unw(6) + NOOOM + LEAK, defs={"qu
 U("parse_base", entry="h_parse_base", cbmc=unw(6) + NOOOM, defs={"quick": []}, expect_canary=False,
   label="proof (loop-free: entry to first loop head)", props=["C01", "C02", "C12"], cost=10, **PARSEC)
 
+# ------------------------------------------------------------------ scanner
+U("lex_dfa", tu="lexer", harness="harness/lex_dfa.c", entry="h_lex_dfa", func="flex tables (yy_get_previous_state) vs reference automata", cbmc=unw(8) + NOOOM,
+  label="proof (loop-free: every related state pair x every byte 1..255)", props=["C03", "C02", "C15", "C06", "C05"], cost=10,
+  trusted=["flex driver loop (longest match, back-up) and buffer management"])
+
+LEXTRUST = ["flex driver loop (longest match, back-up) and buffer management", "sscanf(%o/%x), getenv, isspace (C locale): assumed contracts (carriers in harness/lex_common.h)",
+            "extraction of the rule actions from the generated switch (extract/extract_actions.py, must-fire checks)"]
+for _nm, _props in (("act_top", ["C03", "C02", "C06", "C08", "C15"]), ("act_dq", ["C03", "C02", "C06", "C08", "C05"]), ("act_sq", ["C03", "C02", "C06", "C08"]),
+                    ("act_env", ["C03", "C02", "C06"]), ("act_linecomment", ["C15", "C03", "C02", "C06"]), ("act_ccomment", ["C15", "C03", "C02", "C06", "C08"])):
+    for _sh in range(5):
+        if _nm == "act_top" and _sh not in (0, 2):
+            continue        # top-level forms do not accumulate: two shapes are enough
+        U("lex_%s_s%d" % (_nm, _sh), tu="lexer", harness="harness/lex_act.c", entry="h_" + _nm, func="scanner rule actions (%s), qputc/qput/qbeg/qend/qstr/trim_whitespace" % _nm,
+          defs={"quick": ["-DTOKN=4", "-DSCRATCH_SHAPE=%d" % _sh], "thorough": ["-DTOKN=6", "-DSCRATCH_SHAPE=%d" % _sh]}, cbmc=unw(50) + NOOOM,
+          label="bounded(token text <= 4 bytes quick / 6 thorough over all bytes; scratch buffer shape %d of 5: unallocated / empty / 7 bytes / one byte left / full)" % _sh,
+          props=_props, cost=80, trusted=LEXTRUST, tiers=("quick", "thorough") if _sh in (0, 2, 4) else ("thorough",))
+
 # ------------------------------------------------------------------ per-property text for MANIFEST / evidence
 HOOK_COMMITS = ["b37b503"]
 NOT_APPLICABLE = {}
